@@ -133,6 +133,39 @@ static int hash_split(const vec *S, int res) {
 
 static int64_t n_sets, n_cells_in;
 
+/* Sets whose outline has no planar reading (they reach or encircle a pole, or wrap the globe) are outside the geometric part
+ * of the statement, but not outside its memory clause: whatever the call returns, nothing may stay allocated after an error
+ * return, nor after destroyLinkedMultiPolygon following a success.  These are the inputs on which the normalisation step
+ * fails half-way (several clockwise loops, some without a containing outer loop). */
+static void memory_only(const vec *S, const char *what, uint64_t key) {
+    H3Index *in = vf_buf_new((size_t)S->n * 8, 0);
+    memcpy(in, S->a, (size_t)S->n * 8);
+    LinkedGeoPolygon out;
+    memset(&out, 0, sizeof out);
+    vfa_reset();
+    if (!VF_GUARD()) {
+        vf_assert_report("cellsToLinkedMultiPolygon", key);
+        VF_UNGUARD();
+        vf_buf_free(in);
+        return;
+    }
+    H3Error e = cellsToLinkedMultiPolygon(in, (int)S->n, &out);
+    VF_UNGUARD();
+    vf_add("memory_only.sets", 1);
+    if (e > 15) vf_violation("bad-code", "cellsToLinkedMultiPolygon", key ^ 5, "", "%s: rc=%u", what, e);
+    if (e) {
+        vf_add("memory_only.error_returns", 1);
+        if (VFA.live != 0 || VFA.double_free)
+            vf_violation("leak", "cellsToLinkedMultiPolygon", key ^ 1, "", "%s (%" PRId64 " cells): rc=%u but %ld block(s) left allocated, %ld bad free(s)", what, S->n, e, VFA.live, VFA.double_free);
+    } else {
+        destroyLinkedMultiPolygon(&out);
+        if (VFA.live != 0 || VFA.double_free)
+            vf_violation("leak", "destroyLinkedMultiPolygon", key ^ 2, "", "%s (%" PRId64 " cells): %ld block(s) live, %ld bad free(s) after destroyLinkedMultiPolygon", what, S->n, VFA.live, VFA.double_free);
+    }
+    vfa_reset();
+    vf_buf_free(in);
+}
+
 /* judge one set; kind_prefix distinguishes the exhaustive corpus from sampled sets */
 static void judge_set(vec *S, const char *what, int corpus) {
     sort_unique(S);
@@ -143,6 +176,7 @@ static void judge_set(vec *S, const char *what, int corpus) {
     for (int64_t i = 0; i < S->n; i++)
         if (is_pole_cell(S->a[i])) {
             vf_add("skipped.reaches_pole", 1);
+            memory_only(S, what, key);
             return;
         }
     /* A set that does not contain a pole cell can still encircle the pole (pole inside a hole of the set, or
@@ -170,6 +204,7 @@ static void judge_set(vec *S, const char *what, int corpus) {
         free(lng);
         if (gap < 2 * M_PI / 3) {
             vf_add("skipped.may_encircle_pole", 1);
+            memory_only(S, what, key);
             return;
         }
     }
@@ -430,6 +465,44 @@ static void rings_from_seed(uint64_t seed) {
     free(S.a);
 }
 
+/* a whole coarse resolution minus two or three patches: the set wraps the globe, its "holes" have no enclosing outer loop */
+static void globe_minus_patches(uint64_t seed) {
+    vf_case("globe %016" PRIx64, seed);
+    vf_rng r;
+    vf_rng_seed(&r, seed);
+    int res = (int)vf_below(&r, 3);
+    int np = 2 + (int)vf_below(&r, 2);
+    vf_map drop;
+    vf_map_init(&drop, 256);
+    char what[200];
+    int o = snprintf(what, sizeof what, "globe %016" PRIx64 ": all res-%d cells except", seed, res);
+    for (int p = 0; p < np; p++) {
+        H3Index c = vf_rand_cell(&r, res);
+        int k = res == 0 ? 0 : (int)vf_below(&r, res == 1 ? 2 : 4);
+        int64_t sz;
+        maxGridDiskSize(k, &sz);
+        H3Index *d = calloc((size_t)sz, 8);
+        if (!gridDisk(c, k, d))
+            for (int64_t i = 0; i < sz; i++)
+                if (d[i]) vf_map_put(&drop, d[i], 1, NULL);
+        free(d);
+        o += snprintf(what + o, sizeof what - (size_t)o, " disk(%016" PRIx64 ",%d)", c, k);
+    }
+    vec S = {0};
+    int zero[15] = {0};
+    for (int bc = 0; bc < 122; bc++) {
+        ref_child_iter it;
+        for (ref_child_iter_init(&it, vf_make_cell(0, bc, zero), res); !it.done; ref_child_iter_next(&it))
+            if (!vf_map_get(&drop, it.h)) push(&S, it.h);
+    }
+    vf_map_free(&drop);
+    sort_unique(&S);
+    uint64_t key = vf_mix(seed ^ 0x610BE);
+    memory_only(&S, what, key);
+    vf_add("sets.globe_minus_patches", 1);
+    free(S.a);
+}
+
 /* exhaustive corpus of the coarse resolutions: every 1-disk and every neighbour pair */
 static void corpus(int res) {
     int64_t idx = 0;
@@ -490,6 +563,8 @@ static void run(void) {
     for (int i = 0; i < n; i++) set_from_seed(vf_u64(&r));
     int nr = VF_T(400, 6000);
     for (int i = 0; i < nr; i++) rings_from_seed(vf_u64(&r));
+    int ng = VF_T(40, 600);
+    for (int i = 0; i < ng; i++) globe_minus_patches(vf_u64(&r));
     vf_add("sets", n_sets);
     vf_add("cells_in", n_cells_in);
 }
@@ -500,6 +575,8 @@ static void replay(const char *spec) {
         set_from_seed(a);
     else if (sscanf(spec, "rings %" SCNx64, &a) == 1)
         rings_from_seed(a);
+    else if (sscanf(spec, "globe %" SCNx64, &a) == 1)
+        globe_minus_patches(a);
     else if (sscanf(spec, "pair %" SCNx64 " %" SCNx64, &a, &b) == 2) {
         push(&S, a);
         push(&S, b);
